@@ -259,6 +259,150 @@ UNITS = [SetDelay("Connection"), SetDelay("BaseNode"), Phase(), InfoRoundTrip(),
 
 
 
+def _leaf_quantile(ex, o, attr):
+    """a delay distribution is an opaque leaf; its quantile is an uninterpreted real (non-negative: C15's postcondition on quantiles of clipped delay distributions)"""
+    if attr == "quantile":
+        def q(ex_, p):
+            v = DQ(o, toz(p) if is_sym(p) else z3.RealVal(str(p)))
+            ex_.assume(v >= 0)
+            return v
+        return q
+    return None
+
+
+DQ = z3.Function("dist_quantile", Leaf, REAL, REAL)
+DEFAULT_NORMAL = z3.Const("distrax.Normal(0,0)", Leaf)
+
+
+class Ctor(Unit):
+    """the constructors establish what every other contract of C16 / C15 takes as the class invariant: the stored distribution is a (wrapped) DelayDistribution, the expected delay is the given one or
+    the 0.99-quantile of the STORED distribution and is non-negative, a trainable computation delay is refused, nothing else is invented"""
+    props = ("C16", "C15")
+
+    def __init__(self, cls):
+        self.cls = cls
+        self.name = f"{cls}.__init__"
+        self.target = f"rex/node.py::{cls}.__init__"
+
+    def configs(self):
+        for dd in ("delaydist-or-distrax", "None"):
+            for d in (True, False):
+                yield f"dist={dd},delay={'given' if d else 'None'}", dict(dd=dd != "None", d=d)
+        if self.cls == "Connection":
+            yield "no input name: the sender's node name is used", dict(dd=True, d=True, input_name=None)
+
+    def opts(self, cfg):
+        return {"isinstance": _isinstance, "leaf_attr": _leaf_quantile, "assert_raises": True}
+
+    def summaries(self, cfg):
+        return {("StaticDist", "create"): _create}
+
+    def run(self, ctx):
+        ex, cfg = ctx.ex, ctx.cfg
+        ex.lib.ns["distrax"].entries["Normal"] = lambda ex_, loc=None, scale=None: (ex_.assume(z3.And(is_distrax(DEFAULT_NORMAL), z3.Not(is_dd(DEFAULT_NORMAL)))), DEFAULT_NORMAL)[1] \
+            if (loc, scale) == (0.0, 0.0) else z3.Const("distrax.Normal(other)", Leaf)
+        given_dd, given_delay = z3.Const("given_dd", Leaf), z3.Real("given_delay")
+        ctx.require(z3.Or(is_dd(given_dd), is_distrax(given_dd)))
+        ctx.require(z3.Not(z3.And(is_dd(given_dd), is_distrax(given_dd))))
+        ctx.require(z3.Implies(is_trainable(given_dd), is_dd(given_dd)))
+        ctx.probe("given_is_distrax", is_distrax(given_dd))
+        kwargs = {}
+        if cfg["dd"]:
+            kwargs["delay_dist"] = given_dd
+        if cfg["d"]:
+            kwargs["delay"] = given_delay
+        cref = ex.module_global(ctx.repo.module("rex/node.py"), self.cls)
+        if self.cls == "BaseNode":
+            rate = z3.Real("rate")
+            kwargs.update(name="n", rate=rate, advance=z3.Bool("advance"), scheduling=EnumV("Scheduling", "PHASE"), color="blue", order=z3.Int("order"))
+            args = []
+        else:
+            inp, out = mk_node("dst"), mk_node("src")
+            kwargs.update(blocking=z3.Bool("blocking"), window=z3.Int("window"), skip=z3.Bool("skip"), jitter=EnumV("Jitter", "BUFFER"), input_name=cfg.get("input_name", "shadow"))
+            want_name = "shadow" if cfg.get("input_name", "shadow") is not None else "src"
+            args = [inp, out]
+        want_dd = z3.If(is_distrax(given_dd), wrap(given_dd), given_dd) if cfg["dd"] else wrap(DEFAULT_NORMAL)
+        trainable = z3.And(is_trainable(given_dd)) if cfg["dd"] else z3.BoolVal(False)
+        want_delay = given_delay if cfg["d"] else DQ(want_dd, z3.RealVal("0.99"))
+        try:
+            obj = ex.call(cref, args, kwargs)
+        except RaiseEx as e:
+            if e.exc == "NotImplementedError":
+                ctx.ensure("refuses only a trainable COMPUTATION delay distribution", trainable if self.cls == "BaseNode" else z3.BoolVal(False))
+            elif e.exc == "AssertionError":
+                ctx.ensure("C15/C16 the constructor asserts only for a negative expected delay", want_delay < 0)
+            else:
+                ctx.ensure(f"unexpected {e.exc}", z3.BoolVal(False))
+            return
+        ok = isinstance(obj, Rec) and obj.cls == self.cls
+        ctx.ensure("constructs an instance", z3.BoolVal(ok))
+        if not ok:
+            return
+        if self.cls == "BaseNode":
+            ctx.ensure("a trainable computation-delay distribution is refused", z3.Not(trainable))
+        ctx.ensure("C16 stored distribution = the given DelayDistribution, or the given / default distrax distribution wrapped", toz(obj.f["delay_dist"]) == want_dd)
+        ctx.ensure("stored distribution is a DelayDistribution (class invariant the other contracts start from)", z3.And(is_dd(toz(obj.f["delay_dist"])), z3.Not(is_distrax(toz(obj.f["delay_dist"])))))
+        ctx.ensure("C15/C16 expected delay = the given one, else the 0.99-quantile of the STORED distribution; non-negative", z3.And(toz(obj.f["delay"]) == want_delay, toz(obj.f["delay"]) >= 0))
+        if self.cls == "BaseNode":
+            ctx.ensure("C16 name, rate, advance, scheduling, color, order are stored as given; no connections yet (two separate empty maps)",
+                       z3.And(z3.BoolVal(obj.f["name"] == "n" and obj.f["color"] == "blue" and obj.f["inputs"] == {} and obj.f["outputs"] == {} and obj.f["inputs"] is not obj.f["outputs"]
+                                         and isinstance(obj.f["scheduling"], EnumV) and obj.f["scheduling"].name == "PHASE"),
+                              toz(obj.f["rate"]) == rate, toz(obj.f["advance"]) == z3.Bool("advance"), toz(obj.f["order"]) == z3.Int("order")))
+        else:
+            ctx.ensure("C16 both ends, blocking, window, skip, jitter and the (shadow) input name are stored as given",
+                       z3.And(z3.BoolVal(obj.f["input_node"] is inp and obj.f["output_node"] is out and obj.f["input_name"] == want_name and isinstance(obj.f["jitter"], EnumV) and obj.f["jitter"].name == "BUFFER"),
+                              toz(obj.f["blocking"]) == z3.Bool("blocking"), toz(obj.f["window"]) == z3.Int("window"), toz(obj.f["skip"]) == z3.Bool("skip")))
+
+
+class FromInfo(Unit):
+    """from_info(info, **overrides) hands every field of the info to the constructor (an override wins), and the rebuilt node's info equals the original's"""
+    name = "BaseNode.from_info"
+    target = "rex/node.py::BaseNode.from_info"
+    props = ("C16",)
+
+    def configs(self):
+        yield "no overrides", dict(over=[])
+        yield "rate and delay overridden", dict(over=["rate", "delay"])
+        yield "name and scheduling overridden", dict(over=["name", "scheduling"])
+        yield "every reserved field overridden", dict(over=["name", "rate", "delay_dist", "delay", "advance", "scheduling", "color", "order"])
+
+    def opts(self, cfg):
+        return {"isinstance": _isinstance, "leaf_attr": _leaf_quantile}
+
+    def summaries(self, cfg):
+        return {("StaticDist", "create"): _create}
+
+    def run(self, ctx):
+        ex, cfg = ctx.ex, ctx.cfg
+        ex.lib.rec_methods[("BaseNode", "__class__")] = lambda ex_, o: Rec("type", dict(__module__="m", __qualname__="BaseNode"), module=None, frozen=True)
+        dd = z3.Const("info.delay_dist", Leaf)
+        ctx.require(z3.And(is_dd(dd), z3.Not(is_distrax(dd)), z3.Not(is_trainable(dd)), z3.Real("info.delay") >= 0))
+        fields = dict(name="orig", rate=z3.Real("info.rate"), advance=z3.Bool("info.advance"), scheduling=EnumV("Scheduling", "PHASE"), phase=z3.Real("info.phase"), delay_dist=dd, delay=z3.Real("info.delay"),
+                      inputs={}, cls="m/BaseNode", color="red", order=z3.Int("info.order"))
+        info = Rec("NodeInfo", dict(fields), module="rex/base.py", frozen=True)
+        odd = z3.Const("over.delay_dist", Leaf)
+        over = dict(name="other", rate=z3.Real("over.rate"), delay=z3.Real("over.delay"), scheduling=EnumV("Scheduling", "FREQUENCY"), delay_dist=odd, advance=z3.Bool("over.advance"), color="green", order=z3.Int("over.order"))
+        ctx.require(z3.And(over["delay"] >= 0, is_dd(odd), z3.Not(is_distrax(odd)), z3.Not(is_trainable(odd))))
+        kwargs = {k: over[k] for k in cfg["over"]}
+        cref = ex.module_global(ctx.repo.module("rex/node.py"), "BaseNode")
+        node = ex.call(ex.getattr(cref, "from_info"), [info], kwargs)
+        ok = isinstance(node, Rec) and node.cls == "BaseNode"
+        ctx.ensure("from_info builds a node", z3.BoolVal(ok))
+        if not ok:
+            return
+        same = lambda a, b: toz(aw_same(a, b)) if not isinstance(a, (str, EnumV)) else z3.BoolVal((a == b) if isinstance(a, str) else (isinstance(b, EnumV) and a.name == b.name))
+        for k in ("name", "rate", "advance", "scheduling", "delay_dist", "delay", "color", "order"):
+            want = kwargs.get(k, fields[k])
+            ctx.ensure(f"C16 rebuilt node: {k} = " + ("the override" if k in kwargs else "the info's"), same(want, node.f[k]))
+        info2 = ex.getattr(node, "info")
+        ok2 = isinstance(info2, Rec)
+        ctx.ensure("the rebuilt node has an info", z3.BoolVal(ok2))
+        if ok2 and not cfg["over"]:
+            ctx.ensure("C16 info of the rebuilt node (before its connections are restored) equals the original in every field but phase / inputs",
+                       z3.And([same(fields[k], info2.f[k]) for k in ("name", "rate", "advance", "scheduling", "delay_dist", "delay", "cls", "color", "order")]))
+            ctx.ensure("C16 ... and its phase is that of a source (0) until connect_from_info restores the inputs", toz(info2.f["phase"]) == 0)
+
+
 class AlgebraicLoop(Unit):
     """an un-skipped cycle is reported as an algebraic loop (RecursionError naming the loop); skipping one connection of the cycle breaks it"""
     name = "BaseNode.phase on a cycle"
@@ -311,6 +455,7 @@ class AlgebraicLoop(Unit):
 
 
 UNITS.append(AlgebraicLoop())
+UNITS += [Ctor("BaseNode"), Ctor("Connection"), FromInfo()]
 
 
 def check(tier, seed):
